@@ -1,29 +1,62 @@
 ------------------------------ MODULE FormulaSeq ------------------------------
 (***************************************************************************)
-(* SimpleFormula as a mutable sequence of terms (formula.py): every         *)
-(* mutating list operation is followed by a stable re-sort by degree        *)
-(* (deletions keep the order).  Terms are [name, deg].                      *)
+(* SimpleFormula as a mutable sequence of terms (formula.py).  A term is a  *)
+(* sequence of factor ids; ids below 10 are literal factors and the order   *)
+(* of ids is the string order of the factor expressions.  Every mutating    *)
+(* list operation except a deletion is followed by _reorder(), whose        *)
+(* meaning depends on the ordering mode of the formula:                     *)
+(*   "none"   nothing;                                                      *)
+(*   "degree" stable sort by degree;                                        *)
+(*   "sort"   every term's factors are sorted, then the terms are sorted    *)
+(*            by (degree, sorted factors).                                  *)
 (***************************************************************************)
 EXTENDS Integers, Sequences, FiniteSets
 
-RECURSIVE InsertSorted(_, _)
-InsertSorted(sorted, t) ==
+Deg(t) == Cardinality({i \in DOMAIN t : t[i] >= 10})
+
+RECURSIVE InsNum(_, _)
+InsNum(s, x) == IF s = <<>> THEN <<x>> ELSE IF Head(s) <= x THEN <<Head(s)>> \o InsNum(Tail(s), x) ELSE <<x>> \o s
+RECURSIVE SortNum(_)
+SortNum(s) == IF s = <<>> THEN <<>> ELSE InsNum(SortNum(Tail(s)), Head(s))
+\* Term.__eq__ / __hash__: the sorted factors
+Key(t) == SortNum(t)
+
+RECURSIVE LexLess(_, _)
+LexLess(a, b) == IF b = <<>> THEN FALSE ELSE IF a = <<>> THEN TRUE
+                 ELSE IF Head(a) # Head(b) THEN Head(a) < Head(b) ELSE LexLess(Tail(a), Tail(b))
+\* Term.__lt__
+TermLess(s, t) == Deg(s) < Deg(t) \/ (Deg(s) = Deg(t) /\ LexLess(Key(s), Key(t)))
+
+\* a stable insertion sort under "not greater than"
+LeqIn(mode, s, t) == IF mode = "degree" THEN Deg(s) <= Deg(t) ELSE ~TermLess(t, s)
+RECURSIVE InsertSorted(_, _, _)
+InsertSorted(mode, sorted, t) ==
   IF sorted = <<>> THEN <<t>>
-  ELSE IF Head(sorted).deg <= t.deg THEN <<Head(sorted)>> \o InsertSorted(Tail(sorted), t) ELSE <<t>> \o sorted
-RECURSIVE StableSort(_)
-StableSort(ts) == IF ts = <<>> THEN <<>> ELSE InsertSorted(StableSort(SubSeq(ts, 1, Len(ts) - 1)), ts[Len(ts)])
+  ELSE IF LeqIn(mode, Head(sorted), t) THEN <<Head(sorted)>> \o InsertSorted(mode, Tail(sorted), t) ELSE <<t>> \o sorted
+RECURSIVE StableSort(_, _)
+StableSort(mode, ts) == IF ts = <<>> THEN <<>> ELSE InsertSorted(mode, StableSort(mode, SubSeq(ts, 1, Len(ts) - 1)), ts[Len(ts)])
+
+Reorder(mode, ts) ==
+  CASE mode = "none" -> ts
+    [] mode = "degree" -> StableSort(mode, ts)
+    [] mode = "sort" -> StableSort(mode, [i \in DOMAIN ts |-> Key(ts[i])])
 
 \* list.insert clamps the index (i is 0-based and non-negative here)
 RawInsert(ts, i, t) == LET j == IF i > Len(ts) THEN Len(ts) ELSE i IN SubSeq(ts, 1, j) \o <<t>> \o SubSeq(ts, j + 1, Len(ts))
-Insert(ts, i, t) == StableSort(RawInsert(ts, i, t))
+Insert(mode, ts, i, t) == Reorder(mode, RawInsert(ts, i, t))
 CanIndex(ts, i) == i < Len(ts)
-SetItem(ts, i, t) == StableSort([j \in DOMAIN ts |-> IF j = i + 1 THEN t ELSE ts[j]])
+SetItem(mode, ts, i, t) == Reorder(mode, [j \in DOMAIN ts |-> IF j = i + 1 THEN t ELSE ts[j]])
 DelItem(ts, i) == SubSeq(ts, 1, i) \o SubSeq(ts, i + 2, Len(ts))
-AppendT(ts, t) == Insert(ts, Len(ts), t)
-RECURSIVE Extend(_, _)
-Extend(ts, new) == IF new = <<>> THEN ts ELSE Extend(AppendT(ts, Head(new)), Tail(new))
-IndexOf(ts, t) == IF \E j \in DOMAIN ts : ts[j].name = t.name THEN (CHOOSE j \in DOMAIN ts : ts[j].name = t.name /\ \A q \in 1..(j - 1) : ts[q].name # t.name) - 1 ELSE -1
+AppendT(mode, ts, t) == Insert(mode, ts, Len(ts), t)
+RECURSIVE Extend(_, _, _)
+Extend(mode, ts, new) == IF new = <<>> THEN ts ELSE Extend(mode, AppendT(mode, ts, Head(new)), Tail(new))
+\* list.index / remove compare with Term.__eq__
+IndexOf(ts, t) == IF \E j \in DOMAIN ts : Key(ts[j]) = Key(t) THEN (CHOOSE j \in DOMAIN ts : Key(ts[j]) = Key(t) /\ \A q \in 1..(j - 1) : Key(ts[q]) # Key(t)) - 1 ELSE -1
 
-Sorted(ts) == \A i \in 1..(Len(ts) - 1) : ts[i].deg <= ts[i + 1].deg
-Count(ts, n) == Cardinality({i \in DOMAIN ts : ts[i].name = n})
+Sorted(mode, ts) ==
+  CASE mode = "none" -> TRUE
+    [] mode = "degree" -> \A i \in 1..(Len(ts) - 1) : Deg(ts[i]) <= Deg(ts[i + 1])
+    [] mode = "sort" -> /\ \A i \in 1..(Len(ts) - 1) : ~TermLess(ts[i + 1], ts[i])
+                        /\ \A i \in DOMAIN ts : ts[i] = Key(ts[i])
+Count(ts, k) == Cardinality({i \in DOMAIN ts : Key(ts[i]) = k})
 =============================================================================
